@@ -217,6 +217,32 @@ pub fn to_bytes(d: &DecodedMap) -> Result<Vec<u8>, String> {
     Ok(v)
 }
 
+/// a sink that takes only part of what it is offered (as pipes, sockets and compressors do): at most `cap` bytes
+/// per call, and every third call is interrupted first
+pub struct ShortWriter { pub buf: Vec<u8>, cap: usize, calls: usize }
+impl ShortWriter {
+    pub fn new(cap: usize) -> Self { ShortWriter { buf: vec![], cap: cap.max(1), calls: 0 } }
+}
+impl std::io::Write for ShortWriter {
+    fn write(&mut self, b: &[u8]) -> std::io::Result<usize> {
+        self.calls += 1;
+        if self.calls % 3 == 0 { return Err(std::io::Error::from(std::io::ErrorKind::Interrupted)); }
+        let n = b.len().min(self.cap);
+        self.buf.extend_from_slice(&b[..n]);
+        Ok(n)
+    }
+    fn flush(&mut self) -> std::io::Result<()> { Ok(()) }
+}
+pub fn encode_out_short(d: &DecodedMap, cap: usize) -> Value {
+    guard(|| {
+        let mut w = ShortWriter::new(cap);
+        match d.to_writer(&mut w) {
+            Ok(()) => json!({"k": "ok", "doc": parse_doc(&w.buf)}),
+            Err(e) => json!({"k": "err", "e": format!("{:?}", e)}),
+        }
+    })
+}
+
 /// C01: serialise, decode, serialise, decode, serialise; report the decoded projection and
 /// whether the 2nd and 3rd serialisations are byte-identical
 pub fn roundtrip_out(d: &DecodedMap) -> Value {
